@@ -128,6 +128,7 @@ fn run_case(seed: u64, idx: u64, _tier: Tier, out: &mut CaseOut) {
         }
         2 => {
             fmt.span_wrap = true;
+            fmt.span_edges = fmt.chance_pub(1, 2);
             "span"
         }
         3 => {
@@ -140,6 +141,7 @@ fn run_case(seed: u64, idx: u64, _tier: Tier, out: &mut CaseOut) {
         }
         _ => {
             fmt = Fmt::varied(rng.fork());
+            fmt.span_edges = fmt.chance_pub(1, 2);
             "all"
         }
     };
